@@ -60,7 +60,9 @@ func NewTSSPool(e *Env, accs []*world.Account) *TSSPool {
 
 // offlineDKG runs an honest DKG in memory with the real pkg/tss functions and stores each member's
 // key share in its cylinder store. Used to install a group at genesis.
-func offlineDKG(members []*TSSMember, threshold uint64, gid tss.GroupID, dkgCtx []byte) (tsstypes.Group, []tsstypes.Member, error) {
+// With grind, member 1's polynomial is re-drawn until the group public key's X coordinate starts with a zero byte (a 1-in-256
+// event otherwise): every fixed-width encoding of the key is then exercised at its boundary.
+func offlineDKG(members []*TSSMember, threshold uint64, gid tss.GroupID, dkgCtx []byte, grind bool) (tsstypes.Group, []tsstypes.Member, error) {
 	n := len(members)
 	infos := make([]*tss.Round1Info, n)
 	for i := range members {
@@ -70,13 +72,25 @@ func offlineDKG(members []*TSSMember, threshold uint64, gid tss.GroupID, dkgCtx 
 		}
 		infos[i] = r1
 	}
-	var a0s tss.Points
-	for _, r1 := range infos {
-		a0s = append(a0s, r1.CoefficientCommits[0])
-	}
-	groupPub, err := tss.ComputeGroupPublicKey(a0s...)
-	if err != nil {
-		return tsstypes.Group{}, nil, err
+	var groupPub tss.Point
+	for try := 0; ; try++ {
+		var a0s tss.Points
+		for _, r1 := range infos {
+			a0s = append(a0s, r1.CoefficientCommits[0])
+		}
+		gp, err := tss.ComputeGroupPublicKey(a0s...)
+		if err != nil {
+			return tsstypes.Group{}, nil, err
+		}
+		groupPub = gp
+		if !grind || gp[1] == 0 || try > 4000 {
+			break
+		}
+		r1, err := tss.GenerateRound1Info(1, threshold, dkgCtx)
+		if err != nil {
+			return tsstypes.Group{}, nil, err
+		}
+		infos[0] = r1
 	}
 	var out []tsstypes.Member
 	for i, m := range members {
@@ -107,6 +121,7 @@ type tssGenesisCfg struct {
 	GroupMembers  []*TSSMember // nil: no genesis group
 	Threshold     uint64
 	InitialDEs    int
+	GrindKey      bool // group key with a leading zero byte in X
 }
 
 func tssGenesis(e *Env, cfg tssGenesisCfg) func(w *world.World, gs band.GenesisState) {
@@ -117,9 +132,12 @@ func tssGenesis(e *Env, cfg tssGenesisCfg) func(w *world.World, gs band.GenesisS
 		bg := bandtsstypes.DefaultGenesisState()
 		bg.Params = cfg.BandtssParams
 		if len(cfg.GroupMembers) > 0 {
-			g, ms, err := offlineDKG(cfg.GroupMembers, cfg.Threshold, 1, []byte("genesis-dkg"))
+			g, ms, err := offlineDKG(cfg.GroupMembers, cfg.Threshold, 1, []byte("genesis-dkg"), cfg.GrindKey)
 			if err != nil {
 				panic(err)
+			}
+			if g.PubKey[1] == 0 {
+				e.St.Probe("tss_group_key_with_leading_zero_byte")
 			}
 			tg.Groups = []tsstypes.Group{g}
 			tg.Members = ms
@@ -199,6 +217,7 @@ type activateMeta struct {
 // ---------------------------------------------------------------------------------------------
 
 type TSSActor struct {
+	HoldStaleP int // permille of late signing plans turned into "withhold until another transition awaits its signature"
 	Pool      *TSSPool
 	firstOpen uint64
 	ByzP      int // permille per step of a Byzantine signature attempt
@@ -307,10 +326,22 @@ func (a *TSSActor) Act(e *Env) {
 						e.St.Fault("member_silent_on_attempt")
 					}
 				}
+				if plan >= int64(o.sa.ExpiredHeight)-1 && a.HoldStaleP > 0 && e.Ch.Bool("tss.sign.holdstale", a.HoldStaleP) {
+					plan = -2 // withhold until a group transition waits for a different signing, at the latest until expiry
+				}
 				if e.Draining && plan < 0 && !m.Silent {
 					plan = h
 				}
 				m.plans[key] = plan
+			}
+			if plan == -2 {
+				if tr, ok := bk.GetGroupTransition(ctx); (ok && tr.Status == bandtsstypes.TRANSITION_STATUS_WAITING_SIGN && tr.SigningID != o.s.ID) || h >= int64(o.sa.ExpiredHeight)-1 {
+					if ok && tr.SigningID != o.s.ID && tr.Status == bandtsstypes.TRANSITION_STATUS_WAITING_SIGN {
+						e.St.Fault("withheld_signature_released_while_a_transition_awaits_another_signing")
+					}
+					plan = h
+					m.plans[key] = h
+				}
 			}
 			if e.Draining && !m.Silent && plan < 0 {
 				plan = h
